@@ -16,7 +16,7 @@ channels ∈ gray|alpha|rgb|rgba, prec ∈ 0|1|2 (U8|U16|F32).  `<spec>` generat
 Result: `ok` followed by every channel value of every pixel (row-major) in hex; F32 values are bit
 patterns, every NaN is printed as `nan`.
 -/
-namespace Dds.Drv
+namespace Dds.Drv.C04
 open Dds.Unc
 
 def M64 : Nat := 18446744073709551616
@@ -71,7 +71,7 @@ def parseChannels : String → Option Channels
   | _ => none
 
 def fmtVal (prec v : Nat) : String :=
-  if prec == 2 && F32.isNaN v then "nan" else toHex v
+  if prec == 2 && CF32.isNaN v then "nan" else toHex v
 
 def runC04 (line : String) : String :=
   match toks line with
@@ -99,4 +99,8 @@ def runC04 (line : String) : String :=
     | _, _, _, _, _ => "bad-case"
   | _ => "bad-case"
 
+end Dds.Drv.C04
+
+namespace Dds.Drv
+def runC04 : String → String := C04.runC04
 end Dds.Drv
